@@ -16,7 +16,9 @@ META = {
              "classify_sound ties the decision to facts extracted from bucket_planner.go, bucket_exec.go, gateway.go, "
              "filter_native.go, filter.go and bucket.go."),
     "note": ("Trusted: Lean kernel; extract/c08.go; harness/c08.go (msgpack bodies are decoded by the real library and compared with "
-             "the text the model reads). Assumed: the ordered index read of the scan route is correct (C07); the bucket's sequential "
+             "the text the model reads). The ordered index read of the scan route is modelled by C07's Spec; for the four index types C08 uses "
+             "(key, creation, update, expiration time) that is Hv.C07.holds_current_nonvalue on the current tree, and the run moves "
+             "timestamps by updates between queries so a stale index would show as a route disagreement. Assumed: the bucket's sequential "
              "maintenance is its specification (exercised by the run); floats are k/4 with |k| small, integers below 2^53 (no NaN/Inf, "
              "no lossy int-float conversion); filters are body-field comparison / IN / emptiness legs; forcing the scan route by "
              "wrapping the filter as the single sub-group of an OR group (planOr bypasses on sub-groups; verified by extract)."),
@@ -89,7 +91,8 @@ def signature(fid, f, sh):
     """coarse decidable predicate on the failing input, independent of the model"""
     idx, frm, lim, filt = f[1], int(f[3]), int(f[4]), f[8]
     if fid == "C08-scan-equality-not-canonical":
-        return any(re.search(r"[:,\[]f\d|[:,\[]t\d", t or "") for t in sh.texts.values())
+        # a float / time value in a body, a special float, or an integer beyond float64's exact range
+        return any(re.search(r"[:,\[]f[-+N\d]|[:,\[]t\d|[iu]-?\d{16,}", t or "") for t in sh.texts.values())
     if fid == "C08-special-path-hinted":
         return "[*]" in filt or "#len" in filt
     if fid == "C08-paging-before-residual":
@@ -181,6 +184,8 @@ def spec_violated(rep):
             sh.delete(f[1])
         elif f[0] == "q" and len(f) == 9 and i == last:
             r = split_reply(impl)
+            if impl.startswith("conc-diff"):
+                return "`%s`: concurrent first queries on a not yet built bucket saw a different answer than a lone caller: %s" % (op, impl)
             if r is None:
                 return "`%s` answered `%s`" % (op, impl)
             b, s = canon(sh, f[1], r[0]), canon(sh, f[1], r[1])
@@ -211,8 +216,6 @@ def run(ctx):
     c = corrs[0][2] if corrs else K.Corr()
     mism = set(c.mismatch)
     for i, why in unexplained[:1]:
-        if i in mism and getattr(ctx, "pending_mismatch", None) is not None:
-            continue
         cs = K.case_of(c, i)
         rep = K.case_replay(c, cs, upto=i)
         rep.update({"correspondence": "C08", "oracle": why})
@@ -228,8 +231,9 @@ def run(ctx):
     return K.finish(
         ctx, "proof",
         rule=("cases = 6 corpus cases (the proved witnesses + a sound-fragment case with mutation after the bucket was built) + random "
-              "cases of 5..30 ops (..54 thorough) over 2..8 keys: msgpack bodies (nil/bool/int/uint/float/string/time scalars in every "
-              "wire width, nested map, scalar array, array of maps; fields sometimes missing), records without a body, deletes, and "
+              "cases of 5..30 ops (..54 thorough) over 2..8 keys, every third on a persistent swamp that is closed and reloaded "
+              "between queries: msgpack bodies (nil/bool/int/uint/float/string/time scalars in every "
+              "wire width, boundary values MaxInt64/MinInt64/2^53+-1/MaxUint64/2^63/-0.0/NaN/+-Inf, nested map, scalar array, array of maps; fields sometimes missing), records without a body, deletes, and "
               "queries (key/creation/update/expiration order x asc/desc x From 0..2 x Limit 0..3 x window x MaxResults) whose filter "
               "trees (AND/OR, depth <= 3, EQUAL/IN/range/emptiness legs, plain, [*] and #len paths, labels) are seeded from a live "
               "body; every query runs through the accelerated route and, wrapped as the only sub-group of an OR group, through the "
